@@ -313,7 +313,38 @@ def translate_generic_quotient():
     return 'RatDerivGeneric.v', '\n'.join(out) + '\n'
 
 
-KERNELS = [translate_surface, translate_curve, translate_generic_quotient]
+# ----------------------------------------------------------------------------
+# utils.rotation_matrix: Euler-Rodrigues matrix from (a, b, c, d)
+
+def translate_rotation_matrix():
+    src = open(os.path.join(REPO, 'splipy', 'utils', '__init__.py')).read()
+    f = find_func(ast.parse(src), None, 'rotation_matrix')
+    body = [st for st in f.body if not (isinstance(st, ast.Expr) and isinstance(st.value, ast.Constant))]
+    want = ['axis = axis / np.sqrt(np.dot(axis, axis))', 'a = np.cos(theta / 2)', 'b, c, d = -axis * np.sin(theta / 2)']
+    got = [ast.unparse(st) for st in body[:-1]]
+    if got != want:
+        raise TranslationError('rotation_matrix preamble changed: %r' % got)
+    ret = body[-1]
+    if not (isinstance(ret, ast.Return) and isinstance(ret.value, ast.Call) and ast.unparse(ret.value.func) == 'np.array'):
+        raise TranslationError('rotation_matrix does not return np.array([...])')
+    mat = ret.value.args[0]
+    if not (isinstance(mat, ast.List) and len(mat.elts) == 3 and all(isinstance(r, ast.List) and len(r.elts) == 3 for r in mat.elts)):
+        raise TranslationError('rotation_matrix: expected a 3x3 literal')
+
+    def atom(e):
+        if isinstance(e, ast.Name) and e.id in ('a', 'b', 'c', 'd'):
+            return e.id
+        return None
+    ex = Expr(atom, set())
+    rows = ['[%s]' % '; '.join(ex.tr(x) for x in r.elts) for r in mat.elts]
+    out = ['(* GENERATED by harness/translate.py from splipy/utils/__init__.py (rotation_matrix); do not edit *)',
+           'From Coq Require Import ZArith List.', 'From SplipyModel Require Import Model.Num.', 'Import ListNotations.', '',
+           '(* a = cos(theta/2); (b, c, d) = -unit_axis * sin(theta/2) *)',
+           'Definition rotmat {F : Type} `{Num F} (a b c d : F) : list (list F) :=\n  [%s].' % ';\n   '.join(rows)]
+    return 'RotationMatrix.v', '\n'.join(out) + '\n'
+
+
+KERNELS = [translate_surface, translate_curve, translate_generic_quotient, translate_rotation_matrix]
 
 
 def regenerate_all():
@@ -326,7 +357,7 @@ def regenerate_all():
             name, text = k()
         except TranslationError as e:
             name = {'translate_surface': 'RatDerivSurface.v', 'translate_curve': 'RatDerivCurve.v',
-                    'translate_generic_quotient': 'RatDerivGeneric.v'}.get(k.__name__, k.__name__ + '.v')
+                    'translate_generic_quotient': 'RatDerivGeneric.v', 'translate_rotation_matrix': 'RotationMatrix.v'}.get(k.__name__, k.__name__ + '.v')
             text = '(* TRANSLATION FAILED: %s *)\nTranslation_failed_see_comment.\n' % str(e).replace('*)', '* )')
         path = os.path.join(GEN, name)
         old = open(path).read() if os.path.exists(path) else None
